@@ -1,5 +1,6 @@
 import Lean.Data.Json
 import QrlewModel.Model.Intervals
+import QrlewModel.Model.Hierarchy
 /-!
 JSON-lines driver over the executable model.  One input line = one harness line
 (`{"stream":..,"case":..,..}`); one output line = `{"model": <canonical output>}`.
@@ -46,6 +47,24 @@ def runIntervals (c : Json) : Option Json := do
   let ops ← opsJ.toList.mapM parseIvOp
   pure (ivsToJson (runIv cap (fromIntervals cap init) ops))
 
+def jStrs? (j : Json) : Option (List String) := do
+  let arr ← (j.getArr?).toOption
+  arr.toList.mapM fun s => s.getStr?.toOption
+
+def runHier (c : Json) : Option Json := do
+  let es ← (c.getObjVal? "entries").toOption >>= fun o => o.getArr?.toOption
+  let entries ← es.toList.mapM fun e => do
+    let k ← (e.getArrVal? 0).toOption >>= jStrs?
+    let v ← (e.getArrVal? 1).toOption >>= jInt?
+    pure (k, v)
+  let ls ← (c.getObjVal? "lookups").toOption >>= fun o => o.getArr?.toOption
+  let lookups ← ls.toList.mapM jStrs?
+  let res := lookups.map fun p =>
+    match lookup entries p with
+    | some (k, v) => Json.arr #[Json.arr (k.map Json.str).toArray, Json.num (JsonNumber.fromInt v)]
+    | none => Json.null
+  pure (Json.arr res.toArray)
+
 def handle (line : String) : Json :=
   match Json.parse line with
   | .error e => Json.mkObj [("model", Json.null), ("error", Json.str s!"parse: {e}")]
@@ -54,6 +73,7 @@ def handle (line : String) : Json :=
     let c := (j.getObjVal? "case").toOption.getD Json.null
     let r : Option Json := match stream with
       | "intervals" => runIntervals c
+      | "hier" => runHier c
       | _ => none
     match r with
     | some m => Json.mkObj [("model", m)]
